@@ -185,6 +185,8 @@ struct World
   std::unique_ptr<fcppt::log::context> private_context;
   int private_owner = -1;
   Model private_model{NONE};
+  std::vector<std::unique_ptr<fcppt::log::object>> private_objs;
+  std::vector<std::vector<unsigned>> private_obj_paths;
   FiberState fs[MAX_FIBERS + 1]; // [MAX_FIBERS] = prelude (main context)
 
   // one operation of one fiber (runs inside the fiber, or on main for the prelude)
@@ -245,6 +247,24 @@ struct World
       }
       (void)sim::sched::record(fiber, k, true, 0);
       info.kind = Kind::none; // not part of the shared context's history
+    }
+    else if (n == "obj_loc" && op.get("c") != 0 && private_context && static_cast<int>(fiber) == private_owner)
+    {
+      // an object created on the private context: its level is what that context's own history says
+      unsigned const nm = static_cast<unsigned>(op.getu("name") % NAMES);
+      std::vector<unsigned> path = path_of(static_cast<unsigned>(op.getu("loc") % 13));
+      fcppt::log::location const loc = make_location(path);
+      path.push_back(nm);
+      fcppt::log::parameters const params(fcppt::log::name{std::string(name_of(nm))}, fcppt::log::format::optional_function{});
+      (void)sim::sched::record(fiber, k, false, 0);
+      auto o = std::make_unique<fcppt::log::object>(fcppt::make_ref(*private_context), loc, params);
+      (void)sim::sched::record(fiber, k, true, 0);
+      int const got = from_level(o->level());
+      if (got != private_model.get(path))
+        sim::violate("private-context", "an object created on a context used by one thread only reports " + std::string(level_name(got)) + " at " + path_str(path) + ", its own history gives " + level_name(private_model.get(path)) + " (it was bound to a node of another context)");
+      private_objs.push_back(std::move(o));
+      private_obj_paths.push_back(path);
+      info.kind = Kind::none;
     }
     else if (n == "set")
     {
@@ -531,6 +551,15 @@ struct World
     {
       f.objs.clear();
     }
+    // the private context's objects at the end: still what its own history says
+    for (std::size_t k = 0; k < private_objs.size(); ++k)
+    {
+      int const got = from_level(private_objs[k]->level());
+      if (got != private_model.get(private_obj_paths[k]))
+        sim::violate("private-context", "at the end an object of the private context reports " + std::string(level_name(got)) + " at " + path_str(private_obj_paths[k]) + ", its own history gives " + level_name(private_model.get(private_obj_paths[k])));
+    }
+    private_objs.clear();
+    private_obj_paths.clear();
     private_context.reset();
     context.reset();
   }
@@ -641,7 +670,7 @@ void generate(sim::Rng &rng, sim::Plan &p, bool)
     for (unsigned k = 0; k < len; ++k)
     {
       sim::Op op = make_op(t);
-      if (static_cast<int>(t) == private_owner && (op.name == "set" || op.name == "get") && rng.chance(2, 3))
+      if (static_cast<int>(t) == private_owner && (op.name == "set" || op.name == "get" || op.name == "obj_loc") && rng.chance(2, 3))
         op.set("c", 1);
       if (faulty && rng.chance(1, 4) && op.name != "level" && op.name != "enabled" && op.name != "log")
         op.sets("fault", "alloc:" + std::to_string(rng.range(1, 8)));
